@@ -22,11 +22,6 @@ theorem access_table_nonvacuous :
 theorem writes_serialised :
     Generated.transportWriteSites = ["(*BaseClient).write"] ∧ Generated.writeHoldsMuWrite = true := Lockset.writes_serialised
 
-/-- every packet goes to the transport through exactly one `write` call (call sites regenerated from the source) -/
-theorem one_write_per_packet :
-    Generated.writeCallers = [("(*BaseClient).Connect", 1), ("(*BaseClient).Disconnect", 1), ("(*BaseClient).Ping", 1),
-      ("(*BaseClient).serve", 3), ("publishImpl", 2), ("subscribeImpl", 1), ("unsubscribeImpl", 1)] := Lockset.one_write_per_packet
-
 /-- a conflicting pair under one mutex is mutually exclusive: the abstract statement behind the table.
     Two accesses conflict if they touch the same field and one writes; `holds` of the same mutex for
     both, at least one exclusively, means they cannot overlap. -/
